@@ -192,6 +192,24 @@ func runCase(p *Pair, env *Env, c Case) caseOutcome {
 			args[1] = lintPathsOf(p, env, t)
 			op = Op{op.Name, args}
 		}
+		if base == "cli.run" && len(op.Args) > 14 {
+			// inputs of the model computed with the real code: the verdict of the semantic-version library on the -v value,
+			// the files on which the upper-case lint speaks
+			args := append([][]byte{}, op.Args...)
+			args[4] = []byte("0")
+			if len(args[3]) > 1 {
+				if v := p.Impl(Op{"semver.valid", [][]byte{args[3][1:]}}, env.timeout); v.Status == "ok" {
+					args[4] = []byte("1")
+				}
+			}
+			t := Tree{}
+			for i := 14; i+1 < len(args); i += 2 {
+				t[string(args[i])] = args[i+1]
+			}
+			args[6] = lintPathsOf(p, env, t)
+			op = Op{op.Name, args}
+			prewarmJoins(p, env, op.Args[7:13], op.Args[14:])
+		}
 		switch base {
 		case "cli.generate", "cli.update", "cli.compare":
 			prewarmJoins(p, env, op.Args[0:6], op.Args[7:])
@@ -207,6 +225,9 @@ func runCase(p *Pair, env *Env, c Case) caseOutcome {
 			continue
 		}
 		out.implStatus = append(out.implStatus, op.Name+":"+ri.Status)
+		if base == "cli.run" && rm.Status == "ok" && len(rm.Out) == 1 && string(rm.Out[0]) == "unmodelled" {
+			continue // a form of the command the invocation model does not cover
+		}
 		if !ri.Equal(rm) {
 			out.disagree = append(out.disagree, Disagreement{op, ri, rm})
 		}
